@@ -333,6 +333,17 @@ Proof.
   apply Rmult_lt_0_compat; [cbn [cst ROps]; unfold Q2R; cbn [Qnum Qden]; lra|exact IHn].
 Qed.
 
+Lemma maxf_big : 9007199254740991 <= maxf.
+Proof.
+  unfold maxf, MAX_FLOAT. cbn [cst mul ROps].
+  assert (E : Q2R (9007199254740991 # 1) = 9007199254740991) by (unfold Q2R; cbn [Qnum Qden]; lra).
+  assert (E2 : Q2R (2 # 1) = 2) by (unfold Q2R; cbn [Qnum Qden]; lra).
+  rewrite E, E2.
+  assert (H2 : forall n, 1 <= @fpow R ROps 2 n).
+  { induction n; cbn [fpow one mul ROps]; [lra|]. nra. }
+  specialize (H2 971%nat). nra.
+Qed.
+
 (** ** strictly outside a non-degenerate tetrahedron with non-degenerate faces: exact *)
 Theorem jolt_tetra_outside (a b c d : V3R) :
   let nsq (u v w : V3R) := dot (cross (vsub v u) (vsub w u)) (cross (vsub v u) (vsub w u)) in
